@@ -259,7 +259,20 @@ def op_programs():
     def fine_cwarn(me, x, v):
         return grad(lambda z: np.sum((z * (1.0 + 2.0j)).astype(float) ** 2) + np.sum(np.sqrt(z * z + 1.0)))(x)
 
-    progs = {"fine_holo": fine_holo, "fine_cwarn": fine_cwarn, "fine_jvp_own": fine_jvp_own, "fine_jvp_sharedfn": fine_jvp_sharedfn, "fine_fwd_over_rev": fine_fwd_over_rev, "fine_einsum_a": fine_einsum_a, "fine_einsum_b": fine_einsum_b, "fine_fft": fine_fft, "hvp_sort": hvp_sort, "grad_sort": grad_sort, "hvp_index": hvp_index, "nested_mixed": nested_mixed, "vjp_reuse": vjp_reuse,
+    # ONE VJP function (pullback closure) shared by the threads, each with its own cotangent: its backward sweep walks the
+    # same recorded graph (per-sweep state must not live on the graph); and flatten's unflatten, built once, used by all
+    from autograd.misc.flatten import flatten as _flatten
+
+    VS = make_vjp(lambda z: np.sin(z) * z + (np.cos(z) + z) * z[::-1])(XS)[0]
+    _flat0, UNFLAT = _flatten({"w": onp.ones(2), "b": (onp.zeros(1), 1.5)})
+
+    def fine_shared_vjp(me, x, v):
+        return VS(v)
+
+    def fine_shared_unflatten(me, x, v):
+        return grad(lambda fl: np.sum(UNFLAT(fl)["w"] ** 2) * UNFLAT(fl)["b"][1] + np.sum(UNFLAT(fl)["b"][0] * fl[:1]))(x)
+
+    progs = {"fine_shared_vjp": fine_shared_vjp, "fine_shared_unflatten": fine_shared_unflatten, "fine_holo": fine_holo, "fine_cwarn": fine_cwarn, "fine_jvp_own": fine_jvp_own, "fine_jvp_sharedfn": fine_jvp_sharedfn, "fine_fwd_over_rev": fine_fwd_over_rev, "fine_einsum_a": fine_einsum_a, "fine_einsum_b": fine_einsum_b, "fine_fft": fine_fft, "hvp_sort": hvp_sort, "grad_sort": grad_sort, "hvp_index": hvp_index, "nested_mixed": nested_mixed, "vjp_reuse": vjp_reuse,
              "shared_grad": shared_grad, "shared_hvp": shared_hvp, "shared_jvp": shared_jvp, "shared_grad_argnum": shared_grad_argnum}
     return box, progs
 
